@@ -102,6 +102,14 @@ CHECKS = {
          'real bash, python and a fake REPL process, blocking and awaited, commands of known output up to 300 000 characters.',
          'Hypothesis Seg.Clean (the REPL obeys the protocol: neither prompt string is completed before the end of an answer) is explicit and decidable; a command that prints the '
          'prompt string is outside the theorem. SIGINT delivery and the REPL\'s reaction to it are part of the environment.', '4/C16'),
+ 'C15': ('Theorems C15.* over the copy-loop model of spawn.interact() (a function of the reads the loop performs; filters and escape setting as parameters): '
+         'interact_output_transparent (+ pending flushed first and cleared, logfile_read), interact_input_until_first_escape (the child receives exactly the typed stream through '
+         'input_filter up to the first escape; nothing after it, also within the same read), interact_input_no_escape, interact_logs_sends, mode_restored, raw_while_copying, '
+         'returns_on_child_exit. Tie: real interact() sessions — an outer pty plays the user, a raw-mode inner child reports what it read and wrote, every os.read / os.write of the '
+         'loop is recorded and the recorded reads are replayed through the Lean model; end-to-end oracles on display, child input, terminal attributes, pending text, log files; '
+         'the child-exit race is forced (liveness tests happen after the child has gone).',
+         'The model describes the repaired code (three fix: commits). Each read returns at most 1000 bytes in the code; the theorems hold for any sizes. Terminal mode is one abstract value '
+         '(tcgetattr equality is checked on the real terminal).', '4/C15'),
 }
 PENDING = {}
 for i in range(5, 21):
